@@ -177,6 +177,7 @@ def one_mode(job) -> Dict[str, Any]:
         return Payload(NoDataType(), ContextType(dict(PROGRAM_CTX.get(prog, {}))))
 
     runner = None
+    timeouts = [0]              # consecutive queue jobs whose Future did not complete in time
     cleanup = lambda: None
     live: Dict[str, Any] = {}
     roots: Dict[str, Any] = {}
@@ -259,9 +260,10 @@ def one_mode(job) -> Dict[str, Any]:
             # (the payload context carries a key of the CALLER's that happens to be called "job_id", e.g. a LIMS number)
             fut = master.enqueue(nodes, data=NoDataType(), context=ContextType(dict(PROGRAM_CTX.get(prog, {}), job_id="lims-0042")), return_future=True)
             try:
-                fut.result(timeout=30)
+                fut.result(timeout=10)
+                timeouts[0] = 0
             except TimeoutError:
-                pass            # a job that never completes is C15's business; the residue left behind is measured all the same
+                timeouts[0] += 1   # a job that never completes is C15's business; the residue left behind is measured all the same
             except Exception:
                 if prog != "failing":
                     raise
@@ -292,6 +294,7 @@ def one_mode(job) -> Dict[str, Any]:
             return {"registry": registry_sizes(), "instances": instance_census(), "containers": cont}
         durations: List[float] = []
         stalled = None
+        samples["early"] = take_sample()        # after the warm-up runs, before the first counted one
         for cp in job["checkpoints"]:
             while done < cp and stalled is None:
                 t_ = _time.time()
@@ -299,8 +302,9 @@ def one_mode(job) -> Dict[str, Any]:
                 d_ = _time.time() - t_
                 durations.append(d_)
                 done += 1
-                if done == 8:
-                    samples["early"] = take_sample()
+                if timeouts[0] >= 5:
+                    # the jobs do not come back at all: stop repeating, measure what the attempts left behind
+                    stalled = {"at": done, "took": round(d_, 2), "median_of_first_runs": round(sorted(durations)[len(durations) // 2], 2), "reason": "timeouts"}
                 if len(durations) > 10:
                     med = sorted(durations[:10])[5]
                     if d_ > max(20.0, 50.0 * med):
@@ -366,11 +370,12 @@ def check(tier: str) -> int:
         if "stalled" in r["samples"]:
             info = r["samples"]["stalled"]["info"]
             mode_ = r["mode"].replace("-traced-file", "").replace("-traced", "").replace("cli", "fresh")
-            run.violation(f"run-cost-grows:{mode_}", f"program {r['prog']}, {r['mode']}: run {info['at']} took {info['took']} s, the first runs took "
+            if info.get("reason") != "timeouts":
+              run.violation(f"run-cost-grows:{mode_}", f"program {r['prog']}, {r['mode']}: run {info['at']} took {info['took']} s, the first runs took "
                           f"{info['median_of_first_runs']} s each -- the cost of run N depends on N", {"prog": r["prog"], "mode": r["mode"]})
             if "early" in r["samples"]:
                 for kind, name, d in growth(r, "early", "stalled"):
-                    run.violation(f"{kind}-growth:{mode_}:{name}", f"program {r['prog']}, {r['mode']}: {kind} counter {name} grows by {d} between run 8 and run {info['at']}",
+                    run.violation(f"{kind}-growth:{mode_}:{name}", f"program {r['prog']}, {r['mode']}: {kind} counter {name} grows by {d} between the warm-up and run {info['at']}",
                                   {"prog": r["prog"], "mode": r["mode"]})
             continue
         g = growth(r, cps[1], cps[2])
